@@ -121,19 +121,103 @@ def edge_evaluators(ctx):
         r.check(ok, fname, MS, fname, fn.lineno, "evaluator formula of " + fname, "evaluator output differs from the stated formula")
 
 
+class _Rejected(Exception):
+    pass
+
+
+def _run_dispatch(fn, Fv, call, env):
+    """Abstractly run function_space up to the constructor call for concrete (kind, degree): the constructor expression
+    bound to the dispatch variable, or None when an exception is raised first.  Tests that do not depend on
+    kind/degree/the dispatch variable are unknown; both branches must then leave the dispatch variable alone."""
+    state = {"f": None, "done": False}
+
+    def writes_f(body):
+        return any(isinstance(n, (ast.Assign, ast.AugAssign)) and any(unparse(t) == Fv for t in (n.targets if isinstance(n, ast.Assign) else [n.target])) for b in body for n in ast.walk(b))
+
+    def val(e):
+        if isinstance(e, ast.Constant):
+            return e.value
+        if isinstance(e, ast.Name) and e.id in env:
+            return env[e.id]
+        if isinstance(e, (ast.Tuple, ast.List, ast.Set)):
+            return tuple(val(x) for x in e.elts)
+        raise KeyError
+
+    def test(t):
+        try:
+            if isinstance(t, ast.BoolOp):
+                vs = [test(x) for x in t.values]
+                if isinstance(t.op, ast.And):
+                    return False if any(v is False for v in vs) else (None if any(v is None for v in vs) else True)
+                return True if any(v is True for v in vs) else (None if any(v is None for v in vs) else False)
+            if isinstance(t, ast.UnaryOp) and isinstance(t.op, ast.Not):
+                v = test(t.operand)
+                return None if v is None else not v
+            if isinstance(t, ast.Compare) and len(t.ops) == 1:
+                if isinstance(t.left, ast.Name) and t.left.id == Fv and isinstance(t.comparators[0], ast.Constant) and t.comparators[0].value is None:
+                    isnone = state["f"] is None
+                    return isnone if isinstance(t.ops[0], (ast.Is, ast.Eq)) else (not isnone if isinstance(t.ops[0], (ast.IsNot, ast.NotEq)) else None)
+                a, b = val(t.left), val(t.comparators[0])
+                op = t.ops[0]
+                return {ast.Eq: lambda: a == b, ast.NotEq: lambda: a != b, ast.In: lambda: a in b, ast.NotIn: lambda: a not in b}[type(op)]()
+            if isinstance(t, ast.Name) and t.id == Fv:
+                return state["f"] is not None
+        except (KeyError, TypeError):
+            return None
+        return None
+
+    def block(body):
+        for st in body:
+            if state["done"]:
+                return
+            if any(n is call for n in ast.walk(st)):
+                state["done"] = True
+                return
+            if isinstance(st, ast.If):
+                tv = test(st.test)
+                if tv is None:
+                    if writes_f(st.body) or writes_f(st.orelse):
+                        raise AnalysisError("function_space: the constructor is selected under a test the analysis cannot decide: `%s`" % unparse(st.test)[:80])
+                    continue
+                block(st.body if tv else st.orelse)
+            elif isinstance(st, ast.Raise):
+                raise _Rejected()
+            elif isinstance(st, ast.Assign) and any(unparse(t) == Fv for t in st.targets):
+                state["f"] = None if isinstance(st.value, ast.Constant) and st.value.value is None else unparse(st.value)
+            elif isinstance(st, (ast.For, ast.While, ast.With, ast.Try)) and writes_f([st]):
+                raise AnalysisError("function_space: the constructor is selected inside a loop/with/try block")
+
+    try:
+        block(fn.body)
+    except _Rejected:
+        return None
+    if not state["done"]:
+        raise AnalysisError("function_space: the constructor call is not reached on the straight-line path")
+    return state["f"]
+
+
 def dispatch(ctx):
     r = ctx.rule("SPACE-DISPATCH", "function_space maps every documented (kind, degree) pair to its constructor and raises for anything else", 11)
     m = ctx.repo.mod(SP)
     fn = m.fn("function_space")
-    table = {}
-    for st in fn.body:
-        if isinstance(st, ast.If) and "kind" in unparse(st.test):
-            kinds = [c.value for c in ast.walk(st.test) if isinstance(c, ast.Constant) and isinstance(c.value, str)]
-            for inner in st.body:
-                if isinstance(inner, ast.If) and isinstance(inner.test, ast.Compare) and unparse(inner.test.left) == "degree" and isinstance(inner.test.comparators[0], ast.Constant):
-                    tgt = [unparse(s.value) for s in inner.body if isinstance(s, ast.Assign) and unparse(s.targets[0]) == "space_f"]
-                    for k in kinds:
-                        table[(k, inner.test.comparators[0].value)] = tgt[0] if tgt else None
+    pa = arg_names(fn)
+    if "kind" not in pa or "degree" not in pa:
+        raise AnalysisError("function_space: public parameters kind/degree missing")
+    # the dispatch variable: the local name called with **kwargs
+    fcalls = [c for c in ast.walk(fn) if isinstance(c, ast.Call) and isinstance(c.func, ast.Name) and any(k.arg is None for k in c.keywords)]
+    if len(fcalls) != 1:
+        raise AnalysisError("function_space: the constructor call `<f>(grid, **kwargs)` was not found")
+    Fv = fcalls[0].func.id
+    kinds = sorted({c.value for n in ast.walk(fn) if isinstance(n, ast.Compare) and unparse(n.left) == "kind" for c in ast.walk(n) if isinstance(c, ast.Constant) and isinstance(c.value, str)}) + ["\0other"]
+    degs = sorted({c.value for n in ast.walk(fn) if isinstance(n, ast.Compare) and unparse(n.left) == "degree" for c in ast.walk(n) if isinstance(c, ast.Constant) and isinstance(c.value, int)}) + [97]
+    table, rejected = {}, set()
+    for k in kinds:
+        for dg in degs:
+            res = _run_dispatch(fn, Fv, fcalls[0], {"kind": k, "degree": dg})
+            if res is None:
+                rejected.add((k, dg))
+            else:
+                table[(k, dg)] = res
     want = {
         ("DP", 0): "scalar_spaces.p0_discontinuous_function_space", ("DP", 1): "scalar_spaces.p1_discontinuous_function_space", ("P", 1): "scalar_spaces.p1_continuous_function_space",
         ("DUAL", 0): "scalar_dual_spaces.dual0_function_space", ("DUAL", 1): "scalar_dual_spaces.dual1_function_space", ("RWG", 0): "maxwell_spaces.rwg0_function_space",
@@ -143,9 +227,9 @@ def dispatch(ctx):
     for key, tgt in want.items():
         r.check(table.get(key) == tgt, "%s %d" % key, SP, "function_space", fn.lineno, "dispatch of %s%d -> %s" % (key[0], key[1], table.get(key)), "(%s, %d) dispatches to %s, documented constructor is %s" % (key[0], key[1], table.get(key), tgt))
     extra = sorted(set(table) - set(want))
-    src = unparse(fn).replace(" ", "").replace("\n", "")
-    raises = "ifspace_fisNone:raiseValueError(" in src and "space_f=None" in src
-    r.check(raises and not extra, "unknown pairs rejected", SP, "function_space", fn.lineno, "dispatch fallthrough (extra pairs %s)" % extra, "unknown (kind, degree) pairs are not rejected with ValueError / undocumented pairs %s" % extra)
+    raises = ("\0other", 97) in rejected and all((k, 97) in rejected for k in kinds) and all(("\0other", dg) in rejected for dg in degs)
+    r.check(raises and not extra, "unknown pairs rejected", SP, "function_space", fn.lineno, "dispatch fallthrough (extra pairs %s)" % extra,
+            "unknown (kind, degree) pairs are not rejected with an exception / undocumented pairs reach a constructor: %s" % [(k.replace("\0", "<"), d) for k, d in extra])
     # every constructor exists
     for key, tgt in want.items():
         mod, name = tgt.split(".")
